@@ -19,11 +19,11 @@ CLAIMED = {
     "C09": ("exhaustive product: calendar-gated child definitions (incl. ranking ties x declared ticker order) x parent allocation schedules (market-value and notional-weighted parents) x modes x capital; pairwise comparison nested vs stand-alone run", "Every (child definition, parent schedule, configuration) of the bounded family is run nested and stand-alone; the child's price series and the parent's universe column must equal the stand-alone index on every date (1e-12).", "Children are deterministic and start with a calendar scheduler (the property's quantifier); schedules: never funded, once, daily re-weighting incl. zero, de-fund/re-fund, levered, shorted, parent going bankrupt, child going bankrupt.", "DESIGN.md 5 C09"),
     "C10": ("exhaustive run family on both builds + enumerated ill-formed situations", "Every backtest of the bounded family (menus containing every stock algo) must complete with finite series and working reports on py and cy; every situation of each ill-formed class must raise and leave earlier rows untouched.", "Family well-formedness conditions in DESIGN 4; the known sizing-guard failures are pinned by their exact allocate request (known/C10-sizing.txt).", "DESIGN.md 5 C10"),
     "C11": ("all interleavings (linear extensions) of construct/run events of 2-3 backtests from one template; subprocess runs under hash seeds and with / without earlier backtests in the interpreter", "All 6 (k=2) and 90 (k=3) event orders are executed for every template; each backtest must equal the same backtest built from a fresh template and run alone, the template's raw state and all input frames must be unchanged after every event, results must agree across PYTHONHASHSEED values, and a finished backtest must not re-run.", "Templates with stateful, in-place-mutating, perm-using and seeded random algos; RNG seeded per run event.", "DESIGN.md 5 C11"),
-    "C12": ("exhaustive product: every subset of 8-timestamp windows x 5 schedulers x 8 flag settings x every date, x call-skipping deviations; counters over all parameters; real backtests", "All indices that can be formed from hand-picked boundary windows (ISO week 53/1, New Year, leap day, quarter end, intraday, sparse) are enumerated and each scheduler's answer on each date is compared with plain datetime arithmetic, also when the scheduler is not evaluated on every date.", "First/last date are governed by their flags (pinned test_run_period).", "DESIGN.md 5 C12"),
-    "C13": ("exhaustive enumeration of stacks (length <= 4/5, nested one level, Or, Not) against a reference interpreter; truth tables; Strategy.run call logs", "Every stack shape of the bounded family is executed on the real AlgoStack/Or/Not and its call log and result compared with a 12-line interpreter; Require and RunIfOutOfBounds tables and the temp/perm/run-order contract of Strategy.run are enumerated.", "run_always applies to direct members of a stack.", "DESIGN.md 5 C13"),
-    "C14": ("exhaustive product: universes from a cell alphabet x parameters x prior temp, pipelines of <= 3 selection algos, vs set-builder reference", "Every selection algo is executed on a real Strategy for every universe/parameter combination of the bounded family and compared with plain-Python set-builder definitions (ranked selection relationally).", "include_no_data=True with include_negative=False is undefined by the docs and not judged.", "DESIGN.md 5 C14"),
-    "C15": ("exhaustive product: selections x return tables x windows x lags x limits/bounds/targets x live portfolios, vs numpy formulas", "Every weighting algo is executed on a real Strategy over the bounded family and compared with formulas/relations recomputed with numpy only.", "Degenerate windows excluded; ffn's optimisers checked through relations on their output.", "DESIGN.md 5 C15"),
-    "C16": ("exhaustive product: price paths alphabet^n x leverage x tree x schedule x mode, vs reference value path", "All price paths of the bounded alphabet are run through real backtests; flag date, liquidation of the whole tree, terminality and the spy algo's call log are compared with a reference value path rebuilt from recorded rows and input prices; a re-used bankrupt strategy object must start unflagged.", "Bounds: 4^4 paths (quick) / 6^5, 3-4 leverages, flat / nested / levered parent / 3 levels / coupon-paying, integer and fractional, decimal scaling.", "DESIGN.md 5 C16"),
+    "C12": ("exhaustive product: every subset of 8-timestamp windows x 5 schedulers x 8 flag settings x every date, x call-skipping deviations; counters over all parameters; real backtests (flat, under running / halting parents, Or combinations, empty first rows, benchmark_random)", "All indices that can be formed from hand-picked boundary windows (ISO week 53/1, New Year, leap day, quarter end, intraday, sparse) are enumerated and each scheduler's answer on each date is compared with plain datetime arithmetic, also when the scheduler is not evaluated on every date.", "First/last date are governed by their flags (pinned test_run_period).", "DESIGN.md 5 C12"),
+    "C13": ("exhaustive enumeration of stacks (length <= 4/5, nested one level, Or, Not) against a reference interpreter; truth tables; Strategy.run call logs (temp written between runs / by a parent); every stack also handed to a Strategy", "Every stack shape of the bounded family is executed on the real AlgoStack/Or/Not and its call log and result compared with a 12-line interpreter; Require and RunIfOutOfBounds tables and the temp/perm/run-order contract of Strategy.run are enumerated.", "run_always applies to direct members of a stack.", "DESIGN.md 5 C13"),
+    "C14": ("exhaustive product: universes from a cell alphabet x parameters x prior temp, pipelines of <= 3 selection algos, named tables through real backtests, vs set-builder reference", "Every selection algo is executed on a real Strategy for every universe/parameter combination of the bounded family and compared with plain-Python set-builder definitions (ranked selection relationally).", "include_no_data=True with include_negative=False is undefined by the docs and not judged.", "DESIGN.md 5 C14"),
+    "C15": ("exhaustive product: selections x return tables x windows x lags x limits/bounds/targets x live portfolios, named target tables through real backtests, vs numpy formulas", "Every weighting algo is executed on a real Strategy over the bounded family and compared with formulas/relations recomputed with numpy only.", "Degenerate windows excluded; ffn's optimisers checked through relations on their output.", "DESIGN.md 5 C15"),
+    "C16": ("exhaustive product: price paths alphabet^n x leverage x tree x schedule x mode (incl. transact-booked fractional quantities, zero quotes), vs reference value path", "All price paths of the bounded alphabet are run through real backtests; flag date, liquidation of the whole tree, terminality and the spy algo's call log are compared with a reference value path rebuilt from recorded rows and input prices; a re-used bankrupt strategy object must start unflagged.", "Bounds: 4^4 paths (quick) / 6^5, 3-4 leverages, flat / nested / levered parent / 3 levels / coupon-paying, integer and fractional, decimal scaling.", "DESIGN.md 5 C16"),
     "C17": (BFS + " on fixed-income trees with notional / accrual / additive-index oracles; exhaustive FI backtests", "Every reachable state of the bounded op space on the fixed-income trees F1 (five security kinds) and F2 (FI child strategy) is checked for notional, notional weights, coupon and holding-cost accrual and payment timing, the additive index and Rebalance-to-notional; FI backtests check the index on every date and RenormalizedFixedIncomeResult.", "Bounds: 27-op alphabet depth 3 (quick) / 4, coupon and asymmetric carry tables, spreads, commissions, multipliers, a zero-mark variant.", "DESIGN.md 5 C17"),
     "C18": ("exhaustive run family (incl. runs with negative root value); every report recomputed from node histories; transaction round trip", "For every finished run of the bounded family each report (weights, security weights, positions, transactions, turnover, HHI, Result prices) is recomputed from the recorded node histories, and get_transactions() is replayed through ReplayTransactions.", "Round trip compares positions always, values on flat trees without flows.", "DESIGN.md 5 C18"),
     "C19": ("exhaustive enumeration of tree construction recipes (<= 3 levels) with a structure walker; lazy/eager/undeclared run triples; shared-node cases", "Every recipe (children as node / string / lazy node / dict entry / parent= attachment, duplicates included) is built on the real classes and walked; universe columns, settings pushed from the root and lazily created children are checked after set-up; every flat run of the family is executed in its lazy, eager and undeclared variant and compared.", "Lazy vs eager bit-for-bit with integer positions on the exact alphabet, 1e-9 otherwise.", "DESIGN.md 5 C19"),
